@@ -18,7 +18,11 @@ type c14Case struct {
 	R          int // samples appended to the window afterwards (partly filled last frame)
 }
 
-func c14Run(cs c14Case) (fs []F) {
+func c14Run(cs c14Case) []F {
+	return core.Guard("Channel", func() []F { return c14RunRaw(cs) })
+}
+
+func c14RunRaw(cs c14Case) (fs []F) {
 	t := typeByName(cs.Type)
 	fail := func(kind, format string, a ...any) {
 		fs = append(fs, core.Failf("Channel/"+kind, "Alloc[%s](C=%d,L=K=%d) window [%d,%d) whole=%v channel %d: %s", cs.Type, cs.C, cs.P, cs.S, cs.S+cs.L, cs.Whole, cs.Chan, fmt.Sprintf(format, a...)))
@@ -123,8 +127,8 @@ func init() {
 				}
 			}
 			for _, t := range []int{dyn.Int8, dyn.Uint16, dyn.Float64} { // many channels; long parents
-				for _, C := range []int{9, 17, 65} {
-					for ch := 0; ch < C; ch++ {
+				for _, C := range []int{9, 17, 65, 256, 300} {
+					for ch := 0; ch < C; ch += 1 + C/70 {
 						cases = append(cases, c14Case{Type: tn(t), C: C, P: 3, S: 1, L: 2, Chan: ch})
 						cases = append(cases, c14Case{Type: tn(t), C: C, P: 3, S: 0, L: 2, Chan: ch, R: C / 2})
 					}
@@ -144,7 +148,7 @@ func init() {
 			for C := 1; C <= 9; C++ {
 				chans = append(chans, C)
 			}
-			chans = append(chans, 17, 65)
+			chans = append(chans, 17, 65, 256, 300, 1024)
 			c.ParallelFor(len(chans), func(i int) {
 				C := chans[i]
 				kmax := 70000
